@@ -641,8 +641,17 @@ def localise(gb, flags, unit, props, outdir, jobs=8, timeout=300):
     ok = 0
     failed = []
     undec = []
+    # budget: when the first results are all timeouts the rest will be too -- give up instead of burning hours
+    stop = {'flag': False}
+
+    def one_guarded(g):
+        if stop['flag']:
+            return g, {'verdict': 'undecided', 'out': '[skipped: earlier obligations of this unit all timed out]', 'results': {}, 'secs': 0.0}
+        return one(g)
     with ThreadPoolExecutor(max_workers=jobs) as ex:
-        for g, r in ex.map(one, groups):
+        for g, r in ex.map(one_guarded, groups):
+            if len(undec) >= 6 and ok == 0 and not failed:
+                stop['flag'] = True
             tag = re.sub(r'\W+', '_', g[0]) if len(g) == 1 else 'safety_group'
             if r['verdict'] == 'proved':
                 ok += len(g)
